@@ -132,9 +132,10 @@ type faultCase struct {
 
 // runFaultCase: prior history (no faults), the faulty method, then observations.
 // Monitors (independent of the model):
-//   strict   - a method one of whose commands failed must report an error;
-//   removal  - RemoveSession that reported success leaves no key on the server;
-//   fabricate- a read never returns tokens / login state that are not on the server.
+//
+//	strict   - a method one of whose commands failed must report an error;
+//	removal  - RemoveSession that reported success leaves no key on the server;
+//	fabricate- a read never returns tokens / login state that are not on the server.
 func runFaultCase(r *Run, fc faultCase, tag string) {
 	rig := newStoreRig("redis", fc.Abs, fc.Idle, 1_700_000_000_000_000_000)
 	defer rig.Close()
